@@ -17,7 +17,8 @@ EXPLANATION = (
     "of paired blocks must agree; Win is the only final state and both tails are absorbing. Board values only pass "
     "through comparisons, so agreement in every case is agreement for every board. Also an argument-swap rule over "
     "all positional call sites of the generator modules."
-    ' Also: the game writers keep no module-level state between calls (0:state) and change no mutable default argument (0:defaults).')
+    ' Also: the game writers keep no module-level state between calls (0:state) and change no mutable default argument (0:defaults).'
+    ' No one-shot iterator is walked twice or kept at module level (0:iter); no dictionary is keyed by a probability and its complement (0:keys).')
 ASSUMPTIONS = [
     "moves[i][j] in {0,1,2,3} and loose_tiles[i][j] in {0,1} (value sets established by C15.5 for generated boards)",
     "rewards/moves/loose_tiles are length x width tables (C15.4)",
